@@ -296,13 +296,17 @@ func zipEnum(r *core.Run, emit func(any)) {
 			}
 		}
 	}
-	if r.Thorough() {
+	// forced zip64 form (hand-written writer): reduced name/payload grid in quick, full in thorough
+	{
 		for _, method := range []int{0, 8} {
 			for _, cm := range []bool{false, true} {
 				for count := 0; count <= 3; count++ {
 					for n := range names {
 						for p := range payloads {
 							if count == 0 && (n > 0 || p > 0) {
+								continue
+							}
+							if r.Quick() && (n%2 == 1 || p%2 == 1) {
 								continue
 							}
 							emit(&zipSpec{Writer: "zip64", Method: method, Comment: cm, Count: count, Name: n, Pay: p})
@@ -537,6 +541,7 @@ func zipTruthful(f *genFile, mut []byte, reg region, o map[string]any) (bool, st
 func init() {
 	register(&section{
 		name: "zip", fqfmt: "zip", prog: zipProg,
+		fprog:    `def fobs: {err: errs, validity: validity, lfs: [.local_files[]? | {unc: (.uncompressed|nested)}]};`,
 		newSpec:  func() any { return &zipSpec{} },
 		enum:     zipEnum,
 		build:    zipBuild,
